@@ -224,6 +224,47 @@ static void run(vio::Cursor & c, vio::Out & o, const Dims & d) {
     for (size_t p = 0; p < toks.size(); ++p) for (const auto & rep : vocab) corrupt(p, rep);
 }
 
+
+// Writing through a stream whose formatting state was preset by the caller (precision, floatfield,
+// showpos/showpoint/uppercase, adjustfield, width, fill): the written text must still load back
+// as the identical object, and the writer must hand the stream back with the caller's precision.
+// case: fmt <precision> <flagmask> <width> <fillchar code> <kind> <dims> <X> <D>
+// flagmask: 1 fixed, 2 scientific, 4 showpos, 8 showpoint, 16 uppercase, 32 left, 64 internal, 128 right,
+//           256 hex basefield, 512 showbase, 1024 boolalpha, 2048 unitbuf
+// output: T <tokens> X <dump> D <dump> RT <status> <dump|=> P <precision after the write>
+template <typename T>
+static void runFmt(vio::Cursor & c, vio::Out & o, const Dims & d, long prec, unsigned long mask, long width, char fill) {
+    T X = build<T>(c, d);
+    T D = build<T>(c, d);
+    std::ostringstream os;
+    os.precision(prec);
+    if (mask & 1) os.setf(std::ios::fixed);
+    if (mask & 2) os.setf(std::ios::scientific);
+    if (mask & 4) os.setf(std::ios::showpos);
+    if (mask & 8) os.setf(std::ios::showpoint);
+    if (mask & 16) os.setf(std::ios::uppercase);
+    if (mask & 32) os.setf(std::ios::left, std::ios::adjustfield);
+    if (mask & 64) os.setf(std::ios::internal, std::ios::adjustfield);
+    if (mask & 128) os.setf(std::ios::right, std::ios::adjustfield);
+    if (mask & 256) os.setf(std::ios::hex, std::ios::basefield);
+    if (mask & 512) os.setf(std::ios::showbase);
+    if (mask & 1024) os.setf(std::ios::boolalpha);
+    if (mask & 2048) os.setf(std::ios::unitbuf);
+    os.fill(fill);
+    os.width(width);
+    os << X;
+    const long precAfter = os.precision();
+    const std::string text = os.str();
+    std::vector<std::string> toks; { std::istringstream ts(text); std::string t; while (ts >> t) toks.push_back(t); }
+    const Dump dX = dump(X), dD = dump(D);
+    o << "T"; o.list(toks);
+    o << "X"; o.list(dX.v);
+    o << "D"; o.list(dD.v);
+    o << "RT"; load(o, text, D, dD);
+    o << "P" << precAfter;
+}
+
+
 // The 6-digit collapse behind the POMDP::Policy writer defect: prints two doubles through the
 // real writer and reports the two texts.
 static void digits(vio::Cursor & c, vio::Out & o) {
@@ -265,6 +306,22 @@ int main(int argc, char ** argv) {
         const std::string kind = c.next();
         if (kind == "digits") { digits(c, o); return; }
         if (kind == "polcopy") { polcopy(c, o); return; }
+        if (kind == "fmt") {
+            long prec = c.nextInt(); unsigned long mask = c.nextSize(); long width = c.nextInt(); char fill = static_cast<char>(c.nextInt());
+            const std::string k2 = c.next();
+            Dims d; d.S = c.nextSize(); d.A = c.nextSize(); d.O = 0;
+            if (k2 == "pmodel" || k2 == "spmodel" || k2 == "ppol") d.O = c.nextSize();
+            if (k2 == "model") runFmt<MDP::Model>(c, o, d, prec, mask, width, fill);
+            else if (k2 == "smodel") runFmt<MDP::SparseModel>(c, o, d, prec, mask, width, fill);
+            else if (k2 == "exp") runFmt<MDP::Experience>(c, o, d, prec, mask, width, fill);
+            else if (k2 == "sexp") runFmt<MDP::SparseExperience>(c, o, d, prec, mask, width, fill);
+            else if (k2 == "pol") runFmt<MDP::Policy>(c, o, d, prec, mask, width, fill);
+            else if (k2 == "pmodel") runFmt<POMDP::Model<MDP::Model>>(c, o, d, prec, mask, width, fill);
+            else if (k2 == "spmodel") runFmt<POMDP::SparseModel<MDP::SparseModel>>(c, o, d, prec, mask, width, fill);
+            else if (k2 == "ppol") runFmt<POMDP::Policy>(c, o, d, prec, mask, width, fill);
+            else throw std::logic_error("unknown case kind " + k2);
+            return;
+        }
         Dims d; d.S = c.nextSize(); d.A = c.nextSize(); d.O = 0;
         if (kind == "pmodel" || kind == "spmodel" || kind == "ppol") d.O = c.nextSize();
         if (kind == "model") run<MDP::Model>(c, o, d);
